@@ -465,8 +465,8 @@ def direct_case(rng, ctx, K):
 
 # ---------------------------------------------------------------- driver ---
 def plan(tier, seed):
-    n_shards = 8 if tier == 'quick' else 16
-    return [{'direct': 60 if tier == 'quick' else 10000, 'families': 12 if tier == 'quick' else 2000}
+    n_shards = 16
+    return [{'direct': 200 if tier == 'quick' else 10000, 'families': 40 if tier == 'quick' else 2000}
             for _ in range(n_shards)]
 
 
